@@ -102,13 +102,35 @@ def run(ctx):
                         % (obs[0]["limits"],))
 
     # 4. TLC judges the clauses on the observations
-    jin = ctx.write_ndjson("c23.judge", [{"case": o["case"], "paths": o["paths"], "kept": o["kept"]}
-                                         for o in obs if not o["panic"]])
+    judged = [{"case": o["case"], "paths": o["paths"], "kept": o["kept"]} for o in obs if not o["panic"]]
+    # binding self-test: corrupted copies of observations that satisfy every clause must be judged false
+    corrupt = []
+    if not ctx.replay:
+        for o in obs:
+            live = [p["id"] for p in o["paths"] if p["relay"] or p["st"] in ("open", "unknown")]
+            if o["panic"] or not live or len(corrupt) >= ctx.pick(6, 60):
+                continue
+            c = next(c for c in cases if c["case"] == o["case"])
+            if c["unique"] and sorted(o["kept"]) == sorted(c["expect"]):
+                corrupt.append({"case": 1000000 + o["case"], "paths": o["paths"], "kept": [i for i in o["kept"] if i != live[0]],
+                                "want": "livekept"})
+                gone = [p["id"] for p in o["paths"] if p["id"] not in o["kept"]]
+                if gone:
+                    corrupt.append({"case": 2000000 + o["case"], "paths": o["paths"], "kept": o["kept"] + gone[:1],
+                                    "want": "failedgone|inactkept|allfailed"})
+    jin = ctx.write_ndjson("c23.judge", judged + [{k: v for k, v in c.items() if k != "want"} for c in corrupt])
     verdicts = {}
     if any(not o["panic"] for o in obs):
         jr = ctx.tlc("socket", "Judge_PathPrune", cfg="Judge_PathPrune.cfg", mode="gen", env={"TRACE": jin},
                      timeout=1500, coverage=False)
         verdicts = {v["case"]: v for v in jr.replays}
+        for c in corrupt:
+            v = verdicts.get(c["case"])
+            if v is None or not any(not v[w] for w in c["want"].split("|")):
+                raise ToolError("binding self-test: corrupted observation %d (expected clause %s to fail) was accepted: %s"
+                                % (c["case"], c["want"], v))
+        if corrupt:
+            ctx.cov["binding_selftests"] = {"corrupted_observations": len(corrupt), "rejected": len(corrupt)}
     judge(ctx, cases, obs, verdicts)
     ctx.cov["rule"] = ("exhaustive over path-set shapes at thresholds 6/2 (model); at 30/10 the product of the boundary-value "
                        "count sets x close-time patterns (each case = one TLC initial state); a case is non-trivial when "
